@@ -313,7 +313,9 @@ func runC12(r *Run) {
 			r.Line("norm "+hx([]byte(s)), hx([]byte(domain.NormalizeDomain(s))))
 		}
 	}
-	r.Finish("rule sets of 1..9 rules over the four types (prefixed or relying on the set's default type), half of the domain/full patterns derived from earlier ones (duplicate, deeper with a value-less gap, parent, string-suffix-but-not-label-suffix), labels from a word list, service labels with '_' and random labels over every byte class (letters of both cases, digits, '-', '_', the bytes around the letter ranges, other punctuation, DEL), spelled all upper case / one letter / every letter at random (0x20 style), with and without trailing dot, loaded by Add or by the text loader with comments/blank lines; names derived from the rules (exact, sub-label, `not`+name, label glued on, parent, sibling) in random spelling; a sweep over every ASCII byte c placed behind and in front of upper-case letters in domain/full/keyword rules and names, together with the twin name holding c^0x20 (same name for a letter, a different one otherwise); NormalizeDomain and the scanner on fixed shapes, every ASCII byte between letters and random ASCII strings against the model; expected answers from a trie-free reference whose normalisation changes the 26 upper-case letters only; non-trivial = some name matched and at least 2 rules")
+	// the domain_set plugin: sets assembled from own rules, files and other sets (c12sets.go)
+	r.sets12()
+	r.Finish("rule sets of 1..9 rules over the four types (prefixed or relying on the set's default type), half of the domain/full patterns derived from earlier ones (duplicate, deeper with a value-less gap, parent, string-suffix-but-not-label-suffix), labels from a word list, service labels with '_' and random labels over every byte class (letters of both cases, digits, '-', '_', the bytes around the letter ranges, other punctuation, DEL), spelled all upper case / one letter / every letter at random (0x20 style), with and without trailing dot, loaded by Add or by the text loader with comments/blank lines; names derived from the rules (exact, sub-label, `not`+name, label glued on, parent, sibling) in random spelling; a sweep over every ASCII byte c placed behind and in front of upper-case letters in domain/full/keyword rules and names, together with the twin name holding c^0x20 (same name for a letter, a different one otherwise); NormalizeDomain and the scanner on fixed shapes, every ASCII byte between letters and random ASCII strings against the model; configurations of 3..12 data_provider/domain_set plugins built by the real NewDomainSet in configuration order (own expressions, a file, references to earlier sets in any order, the same set named twice, now and then a set whose own rules are only rules for the root in one of its spellings (domain:. / . / domain: / the empty expression), alone, in a file or referenced by other sets; half of them several sets derived from a common base of 1..7 members, mostly made of other sets only, the base mostly named first), every set asked for names derived from all rules right after it was built and after all others were built, the answer compared with 'some rule of the set or of a set it references, directly or through other sets, describes the name' and with the model's set construction; expected answers from a trie-free reference whose normalisation changes the 26 upper-case letters only; non-trivial = some name matched and at least 2 rules")
 }
 
 // case12 loads one rule set into the real MixMatcher (by Add or through the text loader), asks it for every
